@@ -34,96 +34,10 @@ import zlib
 from common import enc_str, enc_bool, enc_opt, enc_list, Reader
 from markup_util import canon_cfg, enc_config, NotModelled, classify_exc, decode_res, _limited_call
 
-LOREM_MOD = 'emmet.markup.lorem'
-DRAW_LIMIT = 300000
+from lorem_oracle import (LOREM_MOD, DRAW_LIMIT, _mod, OracleLimit, Oracle, FixedOracle, vocab_key, patched, seed_of,
+                          raw_stream, lorem_like, model_draws)
+
 RE_HEADER = re.compile(r'^lorem([a-z]*)(\d*)(-\d*)?$', re.I)      # the statement's header grammar (oracle side)
-
-
-def _mod():
-    return importlib.import_module(LOREM_MOD)        # `emmet.markup.lorem` the attribute is the function
-
-
-class OracleLimit(Exception):
-    pass
-
-
-class Oracle:
-    """Deterministic stream of raw draws.  Modes give different shapes of raw integers: wide (both signs), non-negative,
-    small (many repeated indices: the rejection loop of sample() really rejects) and a mix."""
-    MODES = ('wide', 'nonneg', 'small', 'mixed', 'mixed')
-
-    def __init__(self, seed, limit=DRAW_LIMIT):
-        self.rng = random.Random(seed)
-        self.mode = self.rng.choice(self.MODES)
-        self.limit = limit
-        self.draws = []
-        self.calls = []
-        self.paragraphs = []
-
-    def raw(self):
-        m = self.mode
-        if m == 'mixed':
-            m = self.rng.choice(('wide', 'nonneg', 'small', 'small'))
-        if m == 'wide':
-            return self.rng.randrange(-2 ** 40, 2 ** 40)
-        if m == 'nonneg':
-            return self.rng.randrange(0, 2 ** 31)
-        return self.rng.randrange(0, 70)
-
-    def randint(self, a, b):
-        if a > b:
-            raise ValueError('empty range for randint(%r, %r)' % (a, b))
-        if len(self.draws) >= self.limit:
-            raise OracleLimit()
-        d = self.raw()
-        self.draws.append(d)
-        self.calls.append((a, b))
-        return a + d % (b - a + 1)
-
-
-class FixedOracle(Oracle):
-    """Replays a recorded list of raw draws (replay files)."""
-
-    def __init__(self, draws):
-        Oracle.__init__(self, 0)
-        self.fixed = list(draws)
-
-    def raw(self):
-        if len(self.draws) >= len(self.fixed):
-            raise OracleLimit()
-        return self.fixed[len(self.draws)]
-
-
-def vocab_key(db):
-    for k, v in _mod().vocabularies.items():
-        if v is db:
-            return k
-    return None
-
-
-@contextlib.contextmanager
-def patched(oracle):
-    m = _mod()
-    old_r, old_p = m.randint, m.paragraph
-
-    def paragraph(db, word_count, start_with_common=False):
-        n0 = len(oracle.draws)
-        rec = {'db': vocab_key(db), 'wc': word_count, 'common': bool(start_with_common),
-               'range': oracle.calls[n0 - 1] if n0 else None, 'first': n0, 'text': None}
-        oracle.paragraphs.append(rec)
-        rec['text'] = old_p(db, word_count, start_with_common)
-        rec['last'] = len(oracle.draws)
-        return rec['text']
-    m.randint = oracle.randint
-    m.paragraph = paragraph
-    try:
-        yield oracle
-    finally:
-        m.randint, m.paragraph = old_r, old_p
-
-
-def seed_of(abbr, cfg):
-    return zlib.crc32((abbr + '\0' + canon_cfg(cfg)).encode('utf-8', 'surrogatepass'))
 
 
 def impl_expand_oracle(abbr, user_config, seed=None, draws=None):
